@@ -52,6 +52,9 @@ structure InstLine where
   annot : Option Str
   /-- `        # comment` -/
   comment : Option Str
+  /-- blanks at the very end of the line (binutils up to 2.38 pad every mnemonic to a fixed column,
+  also when no operand follows) -/
+  trail : Nat := 0
   deriving Repr, Inhabited
 
 inductive LineSpec where
@@ -71,7 +74,7 @@ def renderBytes (bs : List (Char × Char)) : Str := bs.flatMap fun (a, b) => [a,
 /-- what follows the operand text: the `<symbol+off>` annotation and the `# comment` -/
 def afterOps (l : InstLine) : Str :=
   (match l.annot with | some a => ' ' :: '<' :: a ++ ['>'] | none => []) ++
-    (match l.comment with | some c => blanks 8 ++ '#' :: ' ' :: c | none => [])
+    (match l.comment with | some c => blanks 8 ++ '#' :: ' ' :: c | none => []) ++ blanks l.trail
 
 /-- the text after the mnemonic -/
 def tailText (l : InstLine) : Str :=
